@@ -151,11 +151,11 @@ def c02_hmc_step(out, tier, seed):
                 normals = [x for k, x in draws if k.endswith("normal")]
                 unis = [x for k, x in draws if k == "global_uniform"] or [x for k, x in draws if k == "uniform"]
                 ok = len(normals) == n * d and len(unis) >= n
-                u.holds(ctx, "a step draws one momentum per coordinate and one acceptance uniform per chain", ok, None, inst)
+                u.holds(ctx, "a step draws one momentum per coordinate and one acceptance uniform per chain", ok, RP_HMC, inst)
                 if not ok:
                     continue
                 newpos = me.get("positions").a
-                u.holds(ctx, "positions keep their shape", tuple(newpos.shape) == (n, d), None, inst)
+                u.holds(ctx, "positions keep their shape", tuple(newpos.shape) == (n, d), RP_HMC, inst)
                 for r in range(n):
                     p = normals[r * d:(r + 1) * d]
                     x1, p1 = ref_leapfrogs(T, X[r], p, eps, L)
@@ -167,7 +167,7 @@ def c02_hmc_step(out, tier, seed):
                                 newpos[r, i], want, RP_HMC, inst)
                         own = set(str(v.z()) for v in X[r] + p + [unis[-n:][r], eps])
                         used = set(str(v) for v in z3util_vars(Num.of(newpos[r, i]).z()))
-                        u.holds(ctx, "rows of the batch never influence one another", used <= own, None, inst)
+                        u.holds(ctx, "rows of the batch never influence one another", used <= own, RP_HMC, inst)
                 carry = me.get("last_grad_summands").a
                 if L > 0:
                     pass
